@@ -273,6 +273,26 @@ func cmdCheck(args []string) int {
 			census = append(census, o)
 		}
 	}
+	// census obligations: a field with a closed list of writers is assigned nowhere else in the package
+	for _, wd := range eng.cf.Writers {
+		if !contains(wd.Props, prop) {
+			continue
+		}
+		ws := eng.fieldWriters(wd.Field)
+		var bad []string
+		for _, w := range ws {
+			if !contains(wd.Funcs, w) {
+				bad = append(bad, w)
+			}
+		}
+		o := &Obligation{Name: "census.writers." + wd.Field, Base: "census.writers." + wd.Field, Kind: "census", Func: "census", Clause: wd.Field, Props: []string{prop}, done: true, Solver: "syntactic census", Status: "unsat",
+			GoalText: fmt.Sprintf("%s is assigned only by %s; writers found: %s", wd.Field, strings.Join(wd.Funcs, ", "), strings.Join(ws, ", "))}
+		if len(bad) > 0 {
+			o.Status = "sat"
+			o.Output = "writers outside the declared list: " + strings.Join(bad, ", ")
+		}
+		census = append(census, o)
+	}
 	genS := time.Since(t0).Seconds()
 	prepareScripts(obls)
 	obls = append(obls, census...)
